@@ -159,7 +159,9 @@ pub fn check(sc: &Scenario, ex: &mut Exec) -> (Verdict, Option<String>) {
                             continue; // the neutral value sits on the clamp: pre-noise value unknown
                         }
                         let expect = (x0 + sign * c * col.sigma).clamp(lo, hi);
-                        let tol = 1e-6 * (x0.abs() + c * col.sigma) + 1e-9;
+                        // a forced draw z is sqrt(-2 ln U1) with U1 = exp(-z^2/2) stored as an f64
+                        // next to 1: relative error about 2e-16 / z^2 (visible for |z| < 1e-4)
+                        let tol = (1e-6 + 4e-16 / (c * c)) * (x0.abs() + c * col.sigma) + 1e-9;
                         if !((xz - expect).abs() <= tol) && expect.is_finite() {
                             violations.push(Violation {
                                 property: "C03".into(),
@@ -240,8 +242,14 @@ pub fn check(sc: &Scenario, ex: &mut Exec) -> (Verdict, Option<String>) {
             continue;
         }
         let z = (t.tau - 1.0) / sigma;
-        let d_used = budget::delta_of_z(z, cu);
-        let e_used = budget::g(d_used.min(0.5)) * cu.sqrt() / sigma;
+        let d_exact = budget::delta_of_z(z, cu);
+        // the compiler computes tau from (1 - delta)^(1/Cu) in f64: an absolute rounding of
+        // ~1e-16 on a quantity at distance delta / Cu from 1 moves the delta implied by the
+        // tau literal by a relative Cu * 1e-16 / delta (visible from delta ~ 1e-12 down); the
+        // (epsilon, delta) the literals imply is read at the favourable end of that interval
+        let d_tol = (8e-16 * cu / d_exact.max(1e-300)).min(0.5);
+        let d_used = d_exact * (1.0 - d_tol);
+        let e_used = budget::g((d_exact * (1.0 + d_tol)).min(0.5)) * cu.sqrt() / sigma;
         thr_used.push((e_used, d_used));
     }
     let eds: Vec<(f64, f64)> = c01::threshold_entries(&compiled.event);
